@@ -107,6 +107,10 @@ def run(ctx):
               detail={'iterates': [tq.text(x) for x in ents]})
     ctx.check(len(calls) == 3 and all(not c.pc for c in calls) and len({c.seq for c in calls}) == 3, 'Y2',
               'exactly three policies are installed per entry, unconditionally', key=('Y2', 'three'), site=site, detail={'found': len(calls)})
+    # the selector of a policy is the network get_network() makes of the configured range, the port what get_port() makes of it:
+    # the smallest network covering the range, found by widening (shared with C12 R5 / C14 L3)
+    from .c12 import ts_kernel_view
+    ts_kernel_view(ctx, 'Y2')
     enc = None
     if len(calls) == 3:
         bs = [{k: strip_ids(v) for k, v in c.args.items()} for c in calls]
